@@ -24,7 +24,7 @@ from hypothesis import strategies as st
 from vlib import gen
 from vlib.build import build_obs
 from vlib import findings
-from vlib.core import Sub, Skip, require
+from vlib.core import Sub, Skip, Violation, require
 from vlib.refobs import RefObs, combine, cmp_obs
 
 PROPERTY = 'C07'
@@ -562,6 +562,16 @@ def call_fit(case, variant=None):
         if 'did not converge' in str(e):
             raise Skip('minimiser did not converge (%s)' % spec['method'])
         raise
+    if spec['correlated'] == 'supplied' and isinstance(y, dict) and len(klist) > 1:
+        # the key list handed over with the factor states the order of its rows; it is documented to be the alphabetical
+        # order of the keys - a factor labelled in another order must not be applied to the alphabetically ordered residuals
+        bad = list(reversed(klist))
+        try:
+            pe.least_squares(x, y, f, priors=parg, silent=True, **dict(kw, inv_chol_cov_matrix=[Lc, bad]))
+        except Exception:
+            pass
+        else:
+            raise Violation('an inverse Cholesky factor labelled %r was accepted for data ordered %r' % (bad, klist))
     return res, sigma, Wcall, ref
 
 
@@ -855,7 +865,7 @@ def corrfit_case(draw, tier):
     defined = [draw(st.integers(0, 4)) != 0 for _ in range(T)]
     a = draw(st.integers(0, T - 1))
     b = draw(st.integers(a, T - 1))
-    how = draw(st.sampled_from(['arg', 'arg', 'prange_ctor', 'prange_set', 'all']))
+    how = draw(st.sampled_from(['arg', 'arg', 'prange_ctor', 'prange_set', 'all', 'arg_over_prange']))
     if how == 'all':
         a, b = 0, T - 1
     # the fit needs at least nparm defined timeslices inside the range
@@ -920,7 +930,11 @@ def corrfit_oracle(spec):
         corr = pe.Corr(content, padding=list(pad))
     if spec['how'] == 'prange_set':
         corr.set_prange([a, b])
-    if spec['how'] == 'arg':
+    if spec['how'] == 'arg_over_prange':
+        # a stored plateau range that differs from the explicitly requested fit range: the argument decides
+        other = [0, Tfull - 1] if [a, b] != [0, Tfull - 1] else [0, max(0, Tfull - 2)]
+        corr.set_prange(other)
+    if spec['how'] in ('arg', 'arg_over_prange'):
         kw['fitrange'] = [a, b]
     if spec['how'] == 'all':
         a, b = 0, Tfull - 1
